@@ -534,6 +534,8 @@ KNOWN_PROBES = {"shared_native_simulation": probe_shared_simulation}
 KNOWN_MATCHERS = {"shared_native_simulation": lambda v: False}
 
 
+RULE = RULE + " " + ("Since seeded round 5 the termination facet continues every completed run with iterate_n(0) ; is_complete ; iterate_n(2) ; is_complete ; iterate ; is_complete (all must report completion) between two get_output calls (equal), and runs the package's own driver loop simulate_script on the same script silently and with print_progress=True (both return within the time-out, with the same record times as the iterate-driven run).")
+
 FACETS = [
     Facet("exhaustive", check_exhaustive, enumerate=enum_histories, shards=(16, 16), setup=setup, native=True, hang_is_violation=True),
     Facet("termination", check_term, strategy=strat_term, examples=(400, 6000), shards=(4, 16), setup=setup, native=True),
